@@ -704,7 +704,11 @@ def run_bigops(payload):
     value = eval(payload["expr"], {"__builtins__": {"float": float}})
     for op in BIG_OPS:
         ctx = e.Context(time_limit=100)
-        ctx.set("v", value)
+        try:
+            ctx.set("v", value)
+        except Exception as ex:  # noqa: BLE001  (set() itself is part of the boundary: a host error here is an outcome, not a harness failure)
+            bad.append("set('v') -> host %s" % type(ex).__name__)
+            break
         try:
             ctx.eval(op)
         except e.microjs.JSError:
